@@ -103,6 +103,31 @@ func applySop(st stypes.KVStore, o sop) (res opResult) {
 }
 
 // modelSop applies o to a map model of a plain KVStore.
+// applySopRaw performs o without recovering (the caller inspects the panic value).
+func applySopRaw(st stypes.KVStore, o sop) {
+	switch o.kind {
+	case "get":
+		st.Get(o.key)
+	case "has":
+		st.Has(o.key)
+	case "set":
+		st.Set(o.key, append([]byte{}, o.val...))
+	case "del":
+		st.Delete(o.key)
+	case "iter":
+		var it kvIter
+		if o.asc {
+			it = st.Iterator(o.start, o.end)
+		} else {
+			it = st.ReverseIterator(o.start, o.end)
+		}
+		for n := 0; it.Valid() && n < 64; n++ {
+			it.Next()
+		}
+		it.Close()
+	}
+}
+
 func modelSop(m kvMap, o sop) (res opResult) {
 	switch o.kind {
 	case "get":
@@ -374,6 +399,8 @@ func gasAlphabet() []sop {
 		{kind: "get", key: a}, {kind: "get", key: cc}, {kind: "has", key: a}, {kind: "has", key: cc},
 		{kind: "set", key: a, val: []byte("xyz")}, {kind: "set", key: cc, val: []byte{}}, {kind: "set", key: b, val: []byte("0123456789")},
 		{kind: "del", key: a}, {kind: "del", key: cc},
+		// a binary key whose base64 form uses both alphabet-specific characters ('+' and '/')
+		{kind: "set", key: []byte{0xFB, 0xFF, 0xFE}, val: []byte{0xFF}}, {kind: "get", key: []byte{0xFB, 0xFF, 0xFE}},
 		{kind: "iter", asc: true}, {kind: "iter", asc: false}, {kind: "iter", start: b, asc: true}, {kind: "iter", end: b, asc: false}, {kind: "iter", start: cc, end: cc, asc: true},
 	}
 }
@@ -595,6 +622,30 @@ func (c *c16) gasProgram(ops []sop, prog []int, cfg stypes.GasConfig) int64 {
 		if !pairsEqual(content, mb.iterate(nil, nil, true)) {
 			c.fail("C16|gas|effect-of-rejected-op|"+ops[prog[pAt]].kind, fmt.Sprintf("program %s with limit %d: op %d (%s) raised out-of-gas (%s) but the wrapped store holds [%s]; the operations before it leave [%s]", progString(ops, prog), lim, pAt, ops[prog[pAt]], og.Descriptor, pairsString(content), pairsString(mb.iterate(nil, nil, true))), rep)
 			return runs
+		}
+		// once over the limit the meter refuses everything: the operations after the crossing one raise
+		// out-of-gas as well and leave the wrapped store alone
+		if pAt+1 < len(prog) {
+			parent2, _ := gasPreload()
+			m2 := stypes.NewGasMeter(lim)
+			st2 := gaskv.NewStore(parent2, m2, stypes.KVGasConfig())
+			for i, oi := range prog {
+				var pv2 interface{}
+				func() {
+					defer func() { pv2 = recover() }()
+					applySopRaw(st2, ops[oi])
+				}()
+				if i > pAt && len(modelCharges(mb, ops[oi], cfg)) > 0 { // (an iterator over an empty range is free)
+					if _, oog := pv2.(stypes.ErrorOutOfGas); !oog {
+						c.fail("C16|gas|accepted-after-out-of-gas|"+ops[oi].kind, fmt.Sprintf("program %s with limit %d: op %d raised out-of-gas, yet op %d (%s) on the same meter was not refused (%v); consumed %d", progString(ops, prog), lim, pAt, i, ops[oi], pv2, m2.GasConsumed()), rep)
+						return runs
+					}
+				}
+			}
+			if !pairsEqual(dumpStore(parent2), mb.iterate(nil, nil, true)) {
+				c.fail("C16|gas|effect-after-out-of-gas", fmt.Sprintf("program %s with limit %d: operations issued after the out-of-gas at op %d changed the wrapped store to [%s]", progString(ops, prog), lim, pAt, pairsString(dumpStore(parent2))), rep)
+				return runs
+			}
 		}
 		if meter.GasConsumed() != bounds[cross] {
 			c.fail("C16|gas|consumed-at-out-of-gas", fmt.Sprintf("program %s with limit %d: consumed %d after out-of-gas, crossing charge brings the total to %d", progString(ops, prog), lim, meter.GasConsumed(), bounds[cross]), rep)
